@@ -131,6 +131,37 @@ type c07hRemote struct {
 	eof       bool
 	selfClose bool
 	acted     bool
+	q         chan []byte // writes go through one goroutine: two blocked net.Pipe writers would contend on a mutex
+}
+
+func (r *c07hRemote) write(b []byte) {
+	r.mu.Lock()
+	if r.q == nil {
+		r.q = make(chan []byte, 16)
+		q := r.q
+		go func() {
+			for b := range q {
+				if _, err := r.conn.Write(b); err != nil {
+					for range q {
+					}
+					return
+				}
+			}
+		}()
+	}
+	q := r.q
+	r.mu.Unlock()
+	q <- b
+}
+
+func (r *c07hRemote) shut() {
+	r.mu.Lock()
+	if r.q != nil {
+		close(r.q)
+		r.q = nil
+	}
+	r.mu.Unlock()
+	r.conn.Close()
 }
 
 func (r *c07hRemote) reader() {
@@ -281,7 +312,7 @@ func c07hRun(t *testing.T, c c07hCase) (res c07hResult) {
 					if script == "badopen" {
 						b[19] = 3 // version
 					}
-					go func() { _, _ = rm.conn.Write(b) }()
+					rm.write(b)
 				case "close":
 					rm.mu.Lock()
 					rm.selfClose = true
@@ -384,7 +415,7 @@ func c07hRun(t *testing.T, c c07hCase) (res c07hResult) {
 		// clean-up: whatever is left must be released for the bubble to end
 		cancel()
 		for _, r := range remotes {
-			r.conn.Close()
+			r.shut()
 		}
 		for {
 			select {
